@@ -91,6 +91,23 @@ the committed quick tier of their own property. The recurring blind spots:
   rarely used node kind in every well-typed argument position (C12), handlers attached
   after the first visit (C16), AST well-formedness of the returned node (C10), the nesting
   ORDER of unary-like operators over the same leaves (C09).
+* *Wave 11* (two changes per agent on the final tree, 38 kept, 21 reported at once; two discarded - one disputed the semantics of
+  the property, one had a demonstration that did not fail): the 17 misses again named missing *values and shapes*, and one harness
+  weakness. In-lists whose members are floats / mixed numbers and a date-time at exactly midnight (typed leaves and the database
+  domain; C02); two lambdas over the SAME collection in one filter (C04); qualified names whose spelling is longer than 128
+  characters while the names themselves are not - the generator's own `wellformed` filter counted the dots and silently dropped them
+  (C06); a string under a unary minus / as an arithmetic operand, and THREE string slots with a *different* payload each - a
+  post-processing pass over the finished SQL that is fooled by `q\\` in one literal and `/*` ... `*/` in two others is invisible
+  as long as every slot carries the same payload (C07 `payload-combinations`); identical operands under and/or and a boolean
+  function compared with a number (C08); duration literals read component by component - multi-component negative durations, equal
+  amounts in different units (`P1MT1M`, `P7Y7M7DT7H7M7S`) - against an independent reading of the SQL interval expression
+  (`vt/durref.py`; C09 and C12 `duration-components`, the ORM backends' bound `timedelta` too); every letter case of `true`,
+  `false`, `null` through every dialect (C09); a named parameter that is valid while a required one is missing (C12); identity
+  entries in an alias map (C14); base queries over the alternate schema whose foreign key references a NON-primary-key column, with
+  filters on the related row's primary key (`node/id eq 2`; C04 and C15 `alternate-schema-bases`); named parameters on built-ins and
+  equal-valued literals of different spelling as trees (C16); a literal operand next to a field in the SQL dialects' type check
+  (C18). The harness weakness: a node whose `__eq__` raises crashed C16 with a harness error instead of a verdict - tree equality is
+  now taken through `node_eq`, and an exception there is a violation.
 * *Wave 10* (two changes per agent, 40 in all, 26 reported at once; the 14 misses each named a value the alphabets lacked):
   keyword case in C01 itself (`flag eq TRUE` through the SQLite dialect - C03 and C19 had it, C01 did not); ordering comparisons in
   lambda bodies whose bound equals a stored value (the complement of `>=` is `<`, not `<=`; C04); a keyword followed by a non-ASCII
